@@ -94,11 +94,57 @@ macro_rules! relocate_pinned {
     };
 }
 
+// ---- children of any type shape ----------------------------------------------------------------
+pub trait Child: Future {
+    fn make(id: u32) -> Self;
+    fn cid(&self) -> u32;
+}
+impl<M: OutMode> Child for SimFut<M> {
+    fn make(id: u32) -> Self {
+        SimFut::new(id)
+    }
+    fn cid(&self) -> u32 {
+        self.id
+    }
+}
+impl<M: OutMode> Child for NdFut<M> {
+    fn make(id: u32) -> Self {
+        NdFut::new(id)
+    }
+    fn cid(&self) -> u32 {
+        self.id
+    }
+}
+/// Outputs of any shape, brought back into the tracked form at the harness boundary.
+pub trait IntoTok {
+    fn into_tok(self) -> Tok;
+}
+impl IntoTok for Tok {
+    fn into_tok(self) -> Tok {
+        self
+    }
+}
+impl IntoTok for RawTok {
+    fn into_tok(self) -> Tok {
+        RawTok::into_tok(self)
+    }
+}
+fn map_stream_g<T: IntoTok>(p: Poll<Option<T>>) -> PollOut {
+    match p {
+        Poll::Pending => PollOut::Pending,
+        Poll::Ready(Some(t)) => PollOut::Item(t.into_tok()),
+        Poll::Ready(None) => PollOut::End,
+    }
+}
+
 // ---- FuturesUnorderedBounded -----------------------------------------------------------------
-struct SFub(FuturesUnorderedBounded<SimFut<Plain>>);
-impl Subject for SFub {
+struct SFub<F>(FuturesUnorderedBounded<F>);
+impl<F: Child + 'static> Subject for SFub<F>
+where
+    F::Output: IntoTok,
+{
     fn push(&mut self, id: u32, how: PushHow) -> PushOut {
-        let f = SimFut::new(id);
+        let f = F::make(id);
         match how {
             PushHow::Back | PushHow::Front => match guard(|| self.0.push(f)) {
                 Ok(()) => PushOut::Accepted,
@@ -106,12 +152,12 @@ impl Subject for SFub {
             },
             PushHow::TryBack | PushHow::TryFront => match self.0.try_push(f) {
                 Ok(()) => PushOut::Accepted,
-                Err(f) => PushOut::Refused(f.id),
+                Err(f) => PushOut::Refused(f.cid()),
             },
         }
     }
     fn poll(&mut self, cx: &mut Context<'_>) -> PollOut {
-        map_stream(Pin::new(&mut self.0).poll_next(cx))
+        map_stream_g(Pin::new(&mut self.0).poll_next(cx))
     }
     fn obs(&self) -> Obs {
         Obs {
@@ -127,17 +173,20 @@ impl Subject for SFub {
 }
 
 // ---- FuturesUnordered ------------------------------------------------------------------------
-struct SFu(FuturesUnordered<SimFut<Plain>>);
-impl Subject for SFu {
+struct SFu<F>(FuturesUnordered<F>);
+impl<F: Child + 'static> Subject for SFu<F>
+where
+    F::Output: IntoTok,
+{
     fn push(&mut self, id: u32, _how: PushHow) -> PushOut {
-        let f = SimFut::new(id);
+        let f = F::make(id);
         match guard(|| self.0.push(f)) {
             Ok(()) => PushOut::Accepted,
             Err(()) => PushOut::Panicked,
         }
     }
     fn poll(&mut self, cx: &mut Context<'_>) -> PollOut {
-        map_stream(Pin::new(&mut self.0).poll_next(cx))
+        map_stream_g(Pin::new(&mut self.0).poll_next(cx))
     }
     fn obs(&self) -> Obs {
         Obs {
@@ -153,10 +202,13 @@ impl Subject for SFu {
 }
 
 // ---- FuturesOrderedBounded -------------------------------------------------------------------
-struct SFob(FuturesOrderedBounded<SimFut<Plain>>, usize);
-impl Subject for SFob {
+struct SFob<F: Future>(FuturesOrderedBounded<F>);
+impl<F: Child + 'static> Subject for SFob<F>
+where
+    F::Output: IntoTok,
+{
     fn push(&mut self, id: u32, how: PushHow) -> PushOut {
-        let f = SimFut::new(id);
+        let f = F::make(id);
         match how {
             PushHow::Back => match guard(|| self.0.push_back(f)) {
                 Ok(()) => PushOut::Accepted,
@@ -168,19 +220,19 @@ impl Subject for SFob {
             },
             PushHow::TryBack => match self.0.try_push_back(f) {
                 Ok(()) => PushOut::Accepted,
-                Err(f) => PushOut::Refused(f.id),
+                Err(f) => PushOut::Refused(f.cid()),
             },
             PushHow::TryFront => match self.0.try_push_front(f) {
                 Ok(()) => PushOut::Accepted,
-                Err(f) => PushOut::Refused(f.id),
+                Err(f) => PushOut::Refused(f.cid()),
             },
         }
     }
     fn extend(&mut self, ids: Vec<u32>) -> bool {
-        guard(|| self.0.extend(ids.into_iter().map(SimFut::new))).is_ok()
+        guard(|| self.0.extend(ids.into_iter().map(F::make))).is_ok()
     }
     fn poll(&mut self, cx: &mut Context<'_>) -> PollOut {
-        map_stream(Pin::new(&mut self.0).poll_next(cx))
+        map_stream_g(Pin::new(&mut self.0).poll_next(cx))
     }
     fn obs(&self) -> Obs {
         Obs {
@@ -196,10 +248,13 @@ impl Subject for SFob {
 }
 
 // ---- FuturesOrdered --------------------------------------------------------------------------
-struct SFo(FuturesOrdered<SimFut<Plain>>);
-impl Subject for SFo {
+struct SFo<F: Future>(FuturesOrdered<F>);
+impl<F: Child + 'static> Subject for SFo<F>
+where
+    F::Output: IntoTok,
+{
     fn push(&mut self, id: u32, how: PushHow) -> PushOut {
-        let f = SimFut::new(id);
+        let f = F::make(id);
         let r = match how {
             PushHow::Back | PushHow::TryBack => guard(|| self.0.push_back(f)),
             PushHow::Front | PushHow::TryFront => guard(|| self.0.push_front(f)),
@@ -210,10 +265,10 @@ impl Subject for SFo {
         }
     }
     fn extend(&mut self, ids: Vec<u32>) -> bool {
-        guard(|| self.0.extend(ids.into_iter().map(SimFut::new))).is_ok()
+        guard(|| self.0.extend(ids.into_iter().map(F::make))).is_ok()
     }
     fn poll(&mut self, cx: &mut Context<'_>) -> PollOut {
-        map_stream(Pin::new(&mut self.0).poll_next(cx))
+        map_stream_g(Pin::new(&mut self.0).poll_next(cx))
     }
     fn obs(&self) -> Obs {
         Obs {
@@ -353,12 +408,15 @@ impl Subject for SFec {
 }
 
 // ---- joins -----------------------------------------------------------------------------------
-struct SJa(futures_buffered::JoinAll<SimFut<Plain>>);
-impl Subject for SJa {
+struct SJa<F: Future>(futures_buffered::JoinAll<F>);
+impl<F: Child + 'static> Subject for SJa<F>
+where
+    F::Output: IntoTok,
+{
     fn poll(&mut self, cx: &mut Context<'_>) -> PollOut {
         match Pin::new(&mut self.0).poll(cx) {
             Poll::Pending => PollOut::Pending,
-            Poll::Ready(v) => PollOut::Vec(v),
+            Poll::Ready(v) => PollOut::Vec(crate::flags::in_world(|| v.into_iter().map(IntoTok::into_tok).collect())),
         }
     }
     fn obs(&self) -> Obs {
@@ -366,13 +424,18 @@ impl Subject for SJa {
     }
     relocate_unpin!();
 }
-struct STja(futures_buffered::TryJoinAll<SimFut<Try>>);
-impl Subject for STja {
+struct STja<F: futures_buffered::TryFuture>(futures_buffered::TryJoinAll<F>);
+impl<F, A, B> Subject for STja<F>
+where
+    F: Child<Output = Result<A, B>> + 'static,
+    A: IntoTok,
+    B: IntoTok,
+{
     fn poll(&mut self, cx: &mut Context<'_>) -> PollOut {
         match Pin::new(&mut self.0).poll(cx) {
             Poll::Pending => PollOut::Pending,
-            Poll::Ready(Ok(v)) => PollOut::Vec(v),
-            Poll::Ready(Err(e)) => PollOut::VecErr(e),
+            Poll::Ready(Ok(v)) => PollOut::Vec(crate::flags::in_world(|| v.into_iter().map(IntoTok::into_tok).collect())),
+            Poll::Ready(Err(e)) => PollOut::VecErr(e.into_tok()),
         }
     }
     fn obs(&self) -> Obs {
@@ -388,41 +451,62 @@ pub fn build(cfg: &Config, initial: Vec<u32>) -> Result<Box<dyn Subject>, ()> {
     let sp = cfg.start_pos;
     guard(move || -> Box<dyn Subject> {
         crate::flags::in_crate(|| -> Box<dyn Subject> {
+            // type shapes: (future with/without drop glue) x (output with/without drop glue)
+            macro_rules! coll {
+                ($F:ty) => {
+                    match cfg.subject {
+                        SubjectKind::FUB => match cfg.ctor {
+                            Ctor::Collect => Box::new(SFub::<$F>(initial.into_iter().map(<$F as Child>::make).collect())) as Box<dyn Subject>,
+                            _ => Box::new(SFub::<$F>(FuturesUnorderedBounded::new(cap))),
+                        },
+                        SubjectKind::FU => match cfg.ctor {
+                            Ctor::Collect => Box::new(SFu::<$F>(initial.into_iter().map(<$F as Child>::make).collect())),
+                            Ctor::WithCapacity => Box::new(SFu::<$F>(FuturesUnordered::with_capacity(cap))),
+                            Ctor::New => Box::new(SFu::<$F>(FuturesUnordered::new())),
+                        },
+                        SubjectKind::FOB => {
+                            let mut q: FuturesOrderedBounded<$F> = match cfg.ctor {
+                                Ctor::Collect => initial.into_iter().map(<$F as Child>::make).collect(),
+                                _ => FuturesOrderedBounded::new(cap),
+                            };
+                            if let Some(p) = sp {
+                                if cfg.ctor != Ctor::Collect {
+                                    q.__verif_set_position(p);
+                                }
+                            }
+                            Box::new(SFob(q))
+                        }
+                        SubjectKind::FO => {
+                            let mut q: FuturesOrdered<$F> = match cfg.ctor {
+                                Ctor::Collect => initial.into_iter().map(<$F as Child>::make).collect(),
+                                Ctor::WithCapacity => FuturesOrdered::with_capacity(cap),
+                                Ctor::New => FuturesOrdered::new(),
+                            };
+                            if let Some(p) = sp {
+                                if cfg.ctor != Ctor::Collect {
+                                    q.__verif_set_position(p);
+                                }
+                            }
+                            Box::new(SFo(q))
+                        }
+                        SubjectKind::JA => Box::new(SJa::<$F>(join_all(initial.into_iter().map(<$F as Child>::make)))),
+                        _ => unreachable!(),
+                    }
+                };
+            }
             match cfg.subject {
-                SubjectKind::FUB => match cfg.ctor {
-                    Ctor::Collect => Box::new(SFub(initial.into_iter().map(SimFut::new).collect())),
-                    _ => Box::new(SFub(FuturesUnorderedBounded::new(cap))),
+                SubjectKind::FUB | SubjectKind::FU | SubjectKind::FOB | SubjectKind::FO | SubjectKind::JA => match cfg.shape & 3 {
+                    0 => coll!(SimFut<Plain>),
+                    1 => coll!(NdFut<Plain>),
+                    2 => coll!(SimFut<PlainRaw>),
+                    _ => coll!(NdFut<PlainRaw>),
                 },
-                SubjectKind::FU => match cfg.ctor {
-                    Ctor::Collect => Box::new(SFu(initial.into_iter().map(SimFut::new).collect())),
-                    Ctor::WithCapacity => Box::new(SFu(FuturesUnordered::with_capacity(cap))),
-                    Ctor::New => Box::new(SFu(FuturesUnordered::new())),
+                SubjectKind::TJA => match cfg.shape & 3 {
+                    0 => Box::new(STja(try_join_all(initial.into_iter().map(SimFut::<Try>::new)))),
+                    1 => Box::new(STja(try_join_all(initial.into_iter().map(NdFut::<Try>::new)))),
+                    2 => Box::new(STja(try_join_all(initial.into_iter().map(SimFut::<TryRaw>::new)))),
+                    _ => Box::new(STja(try_join_all(initial.into_iter().map(NdFut::<TryRaw>::new)))),
                 },
-                SubjectKind::FOB => {
-                    let mut q = match cfg.ctor {
-                        Ctor::Collect => initial.into_iter().map(SimFut::new).collect(),
-                        _ => FuturesOrderedBounded::new(cap),
-                    };
-                    if let Some(p) = sp {
-                        if cfg.ctor != Ctor::Collect {
-                            q.__verif_set_position(p);
-                        }
-                    }
-                    Box::new(SFob(q, cap))
-                }
-                SubjectKind::FO => {
-                    let mut q = match cfg.ctor {
-                        Ctor::Collect => initial.into_iter().map(SimFut::new).collect(),
-                        Ctor::WithCapacity => FuturesOrdered::with_capacity(cap),
-                        Ctor::New => FuturesOrdered::new(),
-                    };
-                    if let Some(p) = sp {
-                        if cfg.ctor != Ctor::Collect {
-                            q.__verif_set_position(p);
-                        }
-                    }
-                    Box::new(SFo(q))
-                }
                 SubjectKind::MB => Box::new(SMb(initial.into_iter().map(SimSrc::new).collect())),
                 SubjectKind::MU => match cfg.ctor {
                     Ctor::Collect => Box::new(SMu(initial.into_iter().map(SimSrc::new).collect())),
@@ -452,10 +536,6 @@ pub fn build(cfg: &Config, initial: Vec<u32>) -> Result<Box<dyn Subject>, ()> {
                     let f: FecFn = |id| SimFut::new(id);
                     Box::new(SFec(Box::pin(SimUp::<UpIdx>::new().for_each_concurrent(cap, f))
                         as Pin<Box<dyn FusedFuture<Output = ()>>>))
-                }
-                SubjectKind::JA => Box::new(SJa(join_all(initial.into_iter().map(SimFut::new)))),
-                SubjectKind::TJA => {
-                    Box::new(STja(try_join_all(initial.into_iter().map(SimFut::new))))
                 }
             }
         })
